@@ -20,7 +20,7 @@ func init() {
 			"R-C10-2 back-off constants as loop facts (init: i < 50, wait 0 then min((i+1)·250ms, 3s); receiveRetry: i < 5, wait i·50ms; exhaustion returns a non-nil error); " +
 			"R-C10-3 every timer wait in the module sits in a select that also has a ctx.Done() case, no time.Sleep, bare receives only on Done()/Ready() channels; " +
 			"R-C10-4 advertise/monitor start every goroutine with eg.Go on an errgroup.WithContext group using the derived context, return eg.Wait's error; Listen interrupts the read on cancellation; a link event yields ErrLinkChange; " +
-			"R-C10-5 the error handed to init on re-dial is the one the task function returned R-C10-6 the failed read/write stays in the error chain (returned as is or %w-wrapped) in Listen, send and the task goroutines; R-C10-7 the Dial callbacks of Run return the task's error unchanged unless it is context.Canceled and panic only for nil; R-C10-8 linkStateWatcher(group ctx, watchC) runs under the task's errgroup, BuildTasks hands each task Watcher.Subscribe(own name, LinkDown), and the watcher waits whenever the channel is non-nil; R-C10-9 every send of a request to the scheduler (listener callback, multicast loop) is an arm of a blocking select with ctx.Done(), so no goroutine of the task outlives a stopped scheduler; R-C10-10 the context Dial hands to the task function is its own ctx or one derived from it inside the same re-dial iteration; R-C10-11 receiveRetry goes round its loop after a failed read only under net.Error.Timeout() == true; R-C10-12 (shared with R-C11-6) the sysctl helpers keep the os error in the chain, so a vanished interface is tolerated at clean-up and the task is re-dialed; R-C10-13 Listen asks ctx.Err() about a failed read before it cancels the context it derived; R-C10-14 the ctx.Done() arm of init's back-off returns ctx.Err(). R-C10-2 also: inside the back-off loop a failed DialFunc attempt always continues the loop. R-C10-4 also: in package corerad a netstate.Change channel is received from only by the watcher goroutine (a function that reports ErrLinkChange). The delivery rules of netstate's notify (R-C19-3) are evaluated here as shared rules: the LinkDown a task subscribed to is delivered.",
+			"R-C10-15 receiveRetry reports the exhausted budget as errRetriesExhausted alone (no wrapped cause the dialer could classify as recoverable); R-C10-5 the error handed to init on re-dial is the one the task function returned R-C10-6 the failed read/write stays in the error chain (returned as is or %w-wrapped) in Listen, send and the task goroutines; R-C10-7 the Dial callbacks of Run return the task's error unchanged unless it is context.Canceled and panic only for nil; R-C10-8 linkStateWatcher(group ctx, watchC) runs under the task's errgroup, BuildTasks hands each task Watcher.Subscribe(own name, LinkDown), and the watcher waits whenever the channel is non-nil; R-C10-9 every send of a request to the scheduler (listener callback, multicast loop) is an arm of a blocking select with ctx.Done(), so no goroutine of the task outlives a stopped scheduler; R-C10-10 the context Dial hands to the task function is its own ctx or one derived from it inside the same re-dial iteration; R-C10-11 receiveRetry goes round its loop after a failed read only under net.Error.Timeout() == true; R-C10-12 (shared with R-C11-6) the sysctl helpers keep the os error in the chain, so a vanished interface is tolerated at clean-up and the task is re-dialed; R-C10-13 Listen asks ctx.Err() about a failed read before it cancels the context it derived; R-C10-14 the ctx.Done() arm of init's back-off returns ctx.Err(). R-C10-2 also: inside the back-off loop a failed DialFunc attempt always continues the loop. R-C10-4 also: in package corerad a netstate.Change channel is received from only by the watcher goroutine (a function that reports ErrLinkChange). The delivery rules of netstate's notify (R-C19-3) are evaluated here as shared rules: the LinkDown a task subscribed to is delivered.",
 		Assumptions: []string{
 			"Go type checker and go/ssa construction are correct",
 			"errgroup.WithContext cancels the derived context on the first non-nil error",
@@ -48,6 +48,7 @@ func runC10(c *Ctx) {
 	initCancelReturnsErr(c, "R-C10-14")
 	onlyWatcherReceivesChanges(c, "R-C10-4")
 	c19Delivery(c) // the LinkDown a task subscribed to is delivered (shared R-C19-3)
+	exhaustionIsBareSentinel(c, "R-C10-15")
 }
 
 // c10RetryOnlyTimeouts (R-C10-11): a failed read is retried on the same
@@ -1421,4 +1422,48 @@ func onlyWatcherReceivesChanges(c *Ctx, rule string) {
 		}
 	}
 	c.R.Check(n >= 1, rule, "corerad:change-receives", "", "", fmt.Sprintf("%d receive(s) on a Change channel", n), ">= 1", "anchor-missing")
+}
+
+// exhaustionIsBareSentinel (R-C10-15): when receiveRetry gives up after its
+// retry budget it returns errRetriesExhausted and nothing else in the chain.
+// Dialer.init classifies an error by what its chain contains (a non-permission
+// *os.SyscallError is recoverable): an exhaustion error that also wraps the
+// last timeout inherits that timeout's classification, and a socket that only
+// ever times out is re-dialled for ever instead of ending the task with a
+// reported error.
+func exhaustionIsBareSentinel(c *Ctx, rule string) {
+	rr := c.needMethod(rule, "internal/corerad", "listener", "receiveRetry")
+	if rr == nil {
+		return
+	}
+	fn := c.fname(rr)
+	n := 0
+	isSentinel := func(x *an.Expr) bool { return x.Op == an.OpGlobal && x.Name == "corerad.errRetriesExhausted" }
+	for _, p := range c.pathsO(rule, rr, an.PathOpts{}) {
+		if p.Ret == nil || len(p.Results) != 3 {
+			continue
+		}
+		res := p.Results[2]
+		has, others := false, []string{}
+		res.Walk(func(x *an.Expr) bool {
+			if isSentinel(x) {
+				has = true
+				return false
+			}
+			if x != res && x.Typ != nil && typeStr(x.Typ) == "error" && !exprIsNil(x) {
+				others = append(others, shortElem(x))
+				return false
+			}
+			return true
+		})
+		if !has {
+			continue
+		}
+		n++
+		c.R.Check(len(others) == 0, rule, fn+":exhaustion-is-the-sentinel-alone", fn, c.pos(p.Ret.Pos()),
+			fmt.Sprintf("returns %s (other errors in the chain: %v)", res, others),
+			"the exhausted retry budget is reported as errRetriesExhausted with no other error in its chain",
+			"the dialer classifies the exhaustion by the wrapped timeout (a system-call error is recoverable): the task is re-dialled for ever instead of ending with a reported error")
+	}
+	c.R.Check(n >= 1, rule, fn+":exhaustion-return", fn, c.pos(rr.Pos()), fmt.Sprintf("%d return path(s) with errRetriesExhausted", n), ">= 1", "anchor-missing")
 }
